@@ -1,6 +1,6 @@
 (* C17 — Limiters bound concurrency and rate and never lose permits.
    Only statements, each closed by [exact lemma], with Print Assumptions. *)
-From Coq Require Import List ZArith Bool Lia.
+From Coq Require Import List ZArith Bool Lia QArith.
 From HV Require Import Model.Sem Model.Rate Proofs.SemProofs Proofs.RateProofs.
 Import ListNotations.
 Open Scope Z_scope.
@@ -187,6 +187,48 @@ Theorem C17_granted_waits_required : forall c last now w,
 Proof. exact granted_wait. Qed.
 Print Assumptions C17_granted_waits_required.
 
+(* ---- any rate: the interval is the rational 1e9 / permitsPerSecond ---- *)
+
+(* interval * rate = one second exactly, whatever the rate (also when it does not divide
+   1e9: at 600,000,000/s a permit is worth 5/3 ns, not 1 ns) *)
+Theorem C17_interval_exact : forall c : qcfg, 0 < pps c ->
+  Qeq (Qmult (Qmake (q_interval_num c) (Z.to_pos (q_interval_den c))) (inject_Z (pps c)))
+      (inject_Z nanos_per_second).
+Proof. exact q_interval_exact. Qed.
+Print Assumptions C17_interval_exact.
+
+(* every call, let through or not, of any size, pushes the next free time by its tokens'
+   worth at that interval; the int64 truncation loses less than one nanosecond *)
+Theorem C17_rate_debit_exact : forall c last now tokens, 0 < pps c ->
+  last * pps c + tokens * nanos_per_second - (pps c - 1) <= q_stored c last now tokens * pps c.
+Proof. exact q_stored_ge_debit. Qed.
+Print Assumptions C17_rate_debit_exact.
+
+(* hence, for every rate and every sequence of calls from any state: tokens asked for
+   since the bucket was free at [s], times one second, <= rate * elapsed, plus less than
+   one nanosecond's worth of permits per call *)
+Theorem C17_rate_debt_any_rate : forall c s reqs nj w, 0 < pps c ->
+  decide (q_rcfg c) (q_final c s reqs) nj = Granted w ->
+  nanos_per_second * sum_tokens reqs <= ((nj + w) - s) * pps c + Z.of_nat (length reqs) * (pps c - 1).
+Proof. exact q_rate_debt. Qed.
+Print Assumptions C17_rate_debt_any_rate.
+
+(* and with a burst cap, between two calls i < j: burst + rate * elapsed *)
+Theorem C17_rate_bound_any_rate : forall c s ni ti (mid : list req) nj m w,
+  0 < pps c -> qmax c = Some m -> 0 <= m -> 0 <= ti ->
+  decide (q_rcfg c) (q_final c s ((ni, ti) :: mid)) nj = Granted w ->
+  nanos_per_second * sum_tokens mid
+    <= ((nj + w) - Z.max ni s) * pps c + m * nanos_per_second + Z.of_nat (S (length mid)) * (pps c - 1).
+Proof. exact q_rate_between. Qed.
+Print Assumptions C17_rate_bound_any_rate.
+
+(* for a rate that divides 1e9 this is the integer-interval model the theorems above are about *)
+Theorem C17_rate_models_agree : forall c last now tokens,
+  0 < pps c -> nanos_per_second mod pps c = 0 ->
+  q_stored c last now tokens = stored (q_to_rcfg c) last now tokens.
+Proof. exact q_stored_integer. Qed.
+Print Assumptions C17_rate_models_agree.
+
 (* concurrent callers, load and store of l.next being separate atomic steps: the bound of
    C17_rate_bound fails.  Witness: two callers, two rounds, both loads before both stores. *)
 Theorem C17_rate_concurrent_refuted :
@@ -276,6 +318,15 @@ Example rate_bound_hypotheses_met :
   interval c * granted_tokens (trace c 0 reqs) = 6000 /\
   (9000 - 5000) + (2 + 2 * 1) * interval c = 8000.
 Proof. vm_compute. repeat split; reflexivity. Qed.
+
+(* 600,000,000 permits per second: a call of 3,000,000 tokens on an empty bucket pushes the next
+   free time by 5,000,000 ns (not 3,000,000); 7 per second: 7 tokens are worth exactly one second *)
+Example rate_non_dividing :
+  q_stored {| pps := 600000000; qmax := None; qtimeout := 0 |} 1000 1000 3000000 = 5001000 /\
+  q_stored {| pps := 7; qmax := None; qtimeout := 0 |} 0 0 7 = 1000000000 /\
+  q_stored {| pps := 7; qmax := None; qtimeout := 0 |} 0 0 1 = 142857142 /\
+  nanos_per_second mod 7 <> 0.
+Proof. vm_compute. repeat split; try reflexivity. discriminate. Qed.
 
 (* the witness calls run one after the other are not all let through at once: the guard
    of C17_rate_concurrent_partial is met by the schedule that does not interleave *)
